@@ -170,3 +170,36 @@ def c07_tsan_leg(tier, seed):
         except Exception:
             rep["inconclusive"] += 1
     return rep
+
+
+def rg_sanitizer_leg(prop, kind, handler, clikind, total, per, extra=None):
+    """Re-run a property's CLI workload with an ASan / TSan build of rg and
+    collect the sanitizer reports that appear on rg's stderr."""
+    def leg(tier, seed):
+        rep = common.empty_report()
+        try:
+            exe = common.build_rg_sanitizer(kind)
+        except common.Broken as e:
+            rep["inconclusive"] += 1
+            rep["notes"].append("%s build of rg failed: %s" % (kind, e))
+            return rep
+        san_dir = os.path.join(common.scratch_root(), "san-%s-%s" % (prop, kind))
+        common.use_rg(exe, san_dir)
+        try:
+            rep = common.run_cli_cases(clikind, handler, seed, "%s-%s" % (prop, kind), total, per, extra=extra)
+        finally:
+            common.use_rg(None, None)
+        n = 0
+        seen = set()
+        for name in sorted(os.listdir(san_dir)):
+            text = open(os.path.join(san_dir, name), errors="replace").read()
+            n += 1
+            key = re.sub(r"0x[0-9a-f]+|:\d+|\bT\d+\b", "", "".join(re.findall(r"#[0-3] [^\n]*", text)))[:400]
+            if key in seen:
+                continue
+            seen.add(key)
+            _classify(prop, kind, text, rep, "rg (%s) under the %s workload" % (kind, prop))
+        rep["counters"]["%s_reports_seen" % kind] = n
+        rep["counters"]["%s_distinct_reports" % kind] = len(seen)
+        return rep
+    return leg
